@@ -203,3 +203,7 @@ def check(chk):
         chk.judge(latched, 'C14.latch', f, '%s is once-latched' % f.name,
                   '%s has no test-and-set: it is reachable from every registered response callback (original, each speculative execution, a late answer after '
                   '_on_timeout) so a second answer overwrites the outcome and runs the callbacks again' % f.name)
+
+    # USE statements finish through the keyspace switch: its completion must be delivered once
+    chk.rule('C14.use', 'the keyspace switch that completes a USE request reports its completion exactly once (all pools asked are the pools awaited; errors accumulated)')
+    chk.borrow('C20', {'C20.complete': 'C14.use'}, 'the request\'s outcome callback can run more than once or never')
